@@ -110,6 +110,16 @@ func FormToProtocol(f wire.Form) vanguard.Protocol {
 	return vanguard.ProtocolREST
 }
 
+// ExtraOptions registers the harness's extra codec ("alt") and compression ("rev").
+func ExtraOptions() []vanguard.TranscoderOption {
+	return []vanguard.TranscoderOption{
+		vanguard.WithCodec(func(res vanguard.TypeResolver) vanguard.Codec { return AltCodec{Res: res} }),
+		vanguard.WithCompression("rev",
+			func() connect.Compressor { return &revCompressor{} },
+			func() connect.Decompressor { return &revDecompressor{} }),
+	}
+}
+
 // Build constructs the real Transcoder.
 func Build(cfg Config, handler http.Handler) (*vanguard.Transcoder, error) {
 	svc := cfg.Service
@@ -135,12 +145,7 @@ func Build(cfg Config, handler http.Handler) (*vanguard.Transcoder, error) {
 		so = append(so, vanguard.WithMaxGetURLBytes(cfg.MaxGetURL))
 	}
 	so = append(so, cfg.ExtraOpts...)
-	to := []vanguard.TranscoderOption{
-		vanguard.WithCodec(func(res vanguard.TypeResolver) vanguard.Codec { return AltCodec{Res: res} }),
-		vanguard.WithCompression("rev",
-			func() connect.Compressor { return &revCompressor{} },
-			func() connect.Decompressor { return &revDecompressor{} }),
-	}
+	to := ExtraOptions()
 	if cfg.Unknown != nil {
 		to = append(to, vanguard.WithUnknownHandler(cfg.Unknown))
 	}
